@@ -51,6 +51,11 @@ struct Shared {
     /// objects); elsewhere a `Tear` verdict degrades to fail-before, because
     /// the crash model of the code under test is atomic puts.
     tear_prefixes: Mutex<Vec<String>>,
+    /// When set (and calls are parked) every successful backend call has a
+    /// second scheduling point *after* its effect: the response is in flight
+    /// while other tasks run, so a call takes effect anywhere between its
+    /// invocation and the caller's resumption, not only at resumption.
+    resp_delay: AtomicBool,
 }
 
 #[derive(Clone)]
@@ -74,6 +79,12 @@ fn injected(what: &str, path: &str) -> Error {
     }
 }
 
+/// Per-run choice (a pure function of the case seed) of whether responses are
+/// delayed; half of the concurrent runs keep the coarser, cheaper schedule space.
+pub fn seeded_response_delay(case_seed: u64) -> bool {
+    crate::rng::derive(case_seed, "respdelay") % 2 == 1
+}
+
 pub fn is_injected(err: &Error) -> bool {
     err.to_string().contains("injected fault")
 }
@@ -87,6 +98,7 @@ impl SimStore {
             forks: Mutex::new(Vec::new()),
             marker: std::sync::atomic::AtomicU64::new(0),
             list_page: AtomicU32::new(0),
+            resp_delay: AtomicBool::new(false),
             applied_mutations: std::sync::atomic::AtomicU64::new(0),
             tear_prefixes: Mutex::new(Vec::new()),
         }))
@@ -109,6 +121,16 @@ impl SimStore {
     }
     fn may_tear(&self, path: &str) -> bool {
         self.0.tear_prefixes.lock().unwrap().iter().any(|p| path.starts_with(p.as_str()))
+    }
+    /// See `Shared::resp_delay`.
+    pub fn set_response_delay(&self, on: bool) {
+        self.0.resp_delay.store(on, Ordering::SeqCst);
+    }
+    /// The response of a completed backend call travels back to the caller.
+    async fn response(&self, p: &str) {
+        if self.0.resp_delay.load(Ordering::SeqCst) && self.0.sim.parking() {
+            let _ = self.0.sim.ticket(OpKind::Yield, p).await;
+        }
     }
     pub fn set_list_page(&self, n: u32) {
         self.0.list_page.store(n, Ordering::SeqCst);
@@ -202,7 +224,9 @@ impl MultipartUpload for SimUpload {
         match self.store.0.sim.ticket(OpKind::MpComplete, &self.path).await {
             Verdict::Proceed => {
                 self.store.before_mutation(OpKind::MpComplete, &self.path);
-                self.inner.complete().await
+                let r = self.inner.complete().await;
+                self.store.response(&self.path).await;
+                r
             }
             Verdict::FailAfter => {
                 self.store.before_mutation(OpKind::MpComplete, &self.path);
@@ -235,7 +259,9 @@ impl ObjectStore for SimStore {
         match self.0.sim.ticket(OpKind::Put, p).await {
             Verdict::Proceed => {
                 self.before_mutation(OpKind::Put, p);
-                self.0.inner.put_opts(location, payload, opts).await
+                let r = self.0.inner.put_opts(location, payload, opts).await;
+                self.response(p).await;
+                r
             }
             Verdict::FailAfter => {
                 self.before_mutation(OpKind::Put, p);
@@ -286,7 +312,11 @@ impl ObjectStore for SimStore {
         let p = location.as_ref();
         let kind = if options.head { OpKind::Head } else { OpKind::Get };
         match self.0.sim.ticket(kind, p).await {
-            Verdict::Proceed | Verdict::Tear(_) => self.0.inner.get_opts(location, options).await,
+            Verdict::Proceed | Verdict::Tear(_) => {
+                let r = self.0.inner.get_opts(location, options).await;
+                self.response(p).await;
+                r
+            }
             Verdict::FailBefore | Verdict::FailAfter => Err(injected("read failed", p)),
             Verdict::Crashed => Err(injected("power loss", p)),
         }
@@ -295,7 +325,11 @@ impl ObjectStore for SimStore {
     async fn get_ranges(&self, location: &Path, ranges: &[Range<u64>]) -> Result<Vec<Bytes>> {
         let p = location.as_ref();
         match self.0.sim.ticket(OpKind::Get, p).await {
-            Verdict::Proceed | Verdict::Tear(_) => self.0.inner.get_ranges(location, ranges).await,
+            Verdict::Proceed | Verdict::Tear(_) => {
+                let r = self.0.inner.get_ranges(location, ranges).await;
+                self.response(p).await;
+                r
+            }
             Verdict::FailBefore | Verdict::FailAfter => Err(injected("read failed", p)),
             Verdict::Crashed => Err(injected("power loss", p)),
         }
@@ -315,7 +349,9 @@ impl ObjectStore for SimStore {
                     match this.0.sim.ticket(OpKind::Delete, &p).await {
                         Verdict::Proceed => {
                             this.before_mutation(OpKind::Delete, &p);
-                            this.0.inner.delete(&location).await?;
+                            let r = this.0.inner.delete(&location).await;
+                            this.response(&p).await;
+                            r?;
                             Ok(location)
                         }
                         Verdict::FailAfter | Verdict::Tear(_) => {
@@ -346,7 +382,11 @@ impl ObjectStore for SimStore {
     async fn list_with_delimiter(&self, prefix: Option<&Path>) -> Result<ListResult> {
         let p = prefix.map(|p| p.as_ref().to_string()).unwrap_or_default();
         match self.0.sim.ticket(OpKind::ListDelim, &p).await {
-            Verdict::Proceed | Verdict::Tear(_) => self.0.inner.list_with_delimiter(prefix).await,
+            Verdict::Proceed | Verdict::Tear(_) => {
+                let r = self.0.inner.list_with_delimiter(prefix).await;
+                self.response(&p).await;
+                r
+            }
             Verdict::FailBefore | Verdict::FailAfter => Err(injected("list failed", &p)),
             Verdict::Crashed => Err(injected("power loss", &p)),
         }
@@ -357,7 +397,9 @@ impl ObjectStore for SimStore {
         match self.0.sim.ticket(OpKind::Copy, p).await {
             Verdict::Proceed => {
                 self.before_mutation(OpKind::Copy, p);
-                self.0.inner.copy_opts(from, to, options).await
+                let r = self.0.inner.copy_opts(from, to, options).await;
+                self.response(p).await;
+                r
             }
             Verdict::FailAfter | Verdict::Tear(_) => {
                 self.before_mutation(OpKind::Copy, p);
@@ -394,7 +436,9 @@ impl SimStore {
                             Some(o) => this.0.inner.list_with_offset(prefix.as_ref(), o),
                             None => this.0.inner.list(prefix.as_ref()),
                         };
-                        s.collect::<Vec<_>>().await
+                        let items = s.collect::<Vec<_>>().await;
+                        this.response(&pstr).await;
+                        items
                     }
                     Verdict::FailBefore | Verdict::FailAfter => {
                         vec![Err(injected("list failed", &pstr))]
